@@ -8,6 +8,7 @@ package server
 
 import (
 	"errors"
+	"sync"
 	"fmt"
 	"io"
 	"net"
@@ -25,6 +26,7 @@ import (
 
 // zvConn is a scheduler-aware net.Conn.
 type zvConn struct {
+	mu       sync.Mutex // a real mutex (this file is not instrumented): the harness's own shared state must not look racy under -race
 	id       int
 	name     string
 	in       []byte
@@ -39,8 +41,12 @@ type zvConn struct {
 
 func (c *zvConn) Read(p []byte) (int, error) {
 	vsched.Do(vsched.KIO, fmt.Sprintf("conn%d.Read", c.id), func() bool {
+		c.mu.Lock()
+		defer c.mu.Unlock()
 		return len(c.in) > 0 || c.eof || c.closed || c.readErr != nil
 	}, nil)
+	c.mu.Lock()
+	defer c.mu.Unlock()
 	if c.closed {
 		return 0, errors.New("use of closed network connection")
 	}
@@ -56,6 +62,8 @@ func (c *zvConn) Read(p []byte) (int, error) {
 }
 
 func (c *zvConn) Write(p []byte) (int, error) {
+	c.mu.Lock()
+	defer c.mu.Unlock()
 	if c.closed {
 		c.writesAfterClose++
 		return 0, errors.New("use of closed network connection")
@@ -68,6 +76,8 @@ func (c *zvConn) Write(p []byte) (int, error) {
 }
 
 func (c *zvConn) Close() error {
+	c.mu.Lock()
+	defer c.mu.Unlock()
 	if c.closed {
 		return errors.New("already closed")
 	}
@@ -81,11 +91,23 @@ func (c *zvConn) SetDeadline(t time.Time) error      { return nil }
 func (c *zvConn) SetReadDeadline(t time.Time) error  { return nil }
 func (c *zvConn) SetWriteDeadline(t time.Time) error { return nil }
 
+func (c *zvConn) isClosed() bool {
+	c.mu.Lock()
+	defer c.mu.Unlock()
+	return c.closed
+}
+
 // deliver makes bytes available to the reader (environment action).
-func (c *zvConn) deliver(b []byte) { c.in = append(c.in, b...) }
+func (c *zvConn) deliver(b []byte) {
+	c.mu.Lock()
+	c.in = append(c.in, b...)
+	c.mu.Unlock()
+}
 
 // take returns and clears what was written so far.
 func (c *zvConn) take() []byte {
+	c.mu.Lock()
+	defer c.mu.Unlock()
 	b := c.out
 	c.out = nil
 	return b
@@ -108,9 +130,12 @@ func zvDial(laddr, raddr *net.TCPAddr, ttl uint8, md5 string, noRoute bool, bind
 	if w == nil {
 		return nil, errors.New("no world")
 	}
+	w.mu.Lock()
 	w.dials++
 	w.lastDialTTL = ttl
-	if w.dialFail {
+	fail := w.dialFail
+	w.mu.Unlock()
+	if fail {
 		return nil, errors.New("connection refused")
 	}
 	c := w.newConn(raddr.IP, "dial")
@@ -141,6 +166,7 @@ const (
 )
 
 type zvWorld struct {
+	mu    sync.Mutex // guards conns/dials/onFSMLog: they are touched from FSM goroutines (dial redirect, log hook) and from the harness
 	srv   *bgpServer
 	vrf   *vrf.VRF
 	rib4  *locRIB.LocRIB
@@ -211,6 +237,8 @@ func (w *zvWorld) addPeer(o zvPeerOpts) *peer {
 }
 
 func (w *zvWorld) newConn(remote net.IP, name string) *zvConn {
+	w.mu.Lock()
+	defer w.mu.Unlock()
 	c := &zvConn{id: len(w.conns), name: name,
 		local:  &net.TCPAddr{IP: net.IPv4(10, 0, 0, 1), Port: 179},
 		remote: &net.TCPAddr{IP: remote, Port: 40000 + len(w.conns)}}
@@ -257,12 +285,13 @@ func zvRemoteOpen(o zvPeerOpts, id uint32) zvwOpen {
 
 // activeConnect drives an active peer from Idle to OpenSent and returns the connection it dialled.
 func (w *zvWorld) activeConnect() *zvConn {
-	n := len(w.conns)
+	n := len(w.connsSnapshot())
 	vsched.Advance(15 * time.Second) // reconnect interval: Idle -> AutomaticStart -> dial
-	if len(w.conns) == n {
+	cs := w.connsSnapshot()
+	if len(cs) == n {
 		return nil
 	}
-	return w.conns[len(w.conns)-1]
+	return cs[len(cs)-1]
 }
 
 // establish performs the remote side of the handshake on c.
@@ -292,7 +321,7 @@ func (l zvLogger) Debugf(string, ...interface{}) {}
 func (l zvLogger) Error(string)                  {}
 func (l zvLogger) Debug(string)                  {}
 func (l zvLogger) Info(msg string) {
-	if msg != "FSM: Neighbor state change" || zvCurWorld == nil || zvCurWorld.onFSMLog == nil {
+	if zvNoHooks || msg != "FSM: Neighbor state change" || zvCurWorld == nil || zvCurWorld.onFSMLog == nil {
 		return
 	}
 	zvCurWorld.onFSMLog(fmt.Sprint(l.fields["peer"]), fmt.Sprint(l.fields["last_state"]), fmt.Sprint(l.fields["new_state"]), fmt.Sprint(l.fields["reason"]))
@@ -301,3 +330,19 @@ func (l zvLogger) WithFields(f blog.Fields) blog.LoggerInterface { return zvLogg
 func (l zvLogger) WithError(error) blog.LoggerInterface         { return l }
 
 func init() { blog.SetLogger(zvLogger{}) }
+
+// zvNoHooks switches the FSM log hook off (race-mode harnesses: the hook shares harness state with FSM goroutines).
+var zvNoHooks bool
+
+// connsSnapshot returns the connections created so far.
+func (w *zvWorld) connsSnapshot() []*zvConn {
+	w.mu.Lock()
+	defer w.mu.Unlock()
+	return append([]*zvConn{}, w.conns...)
+}
+
+func (w *zvWorld) dialCount() int {
+	w.mu.Lock()
+	defer w.mu.Unlock()
+	return w.dials
+}
